@@ -39,7 +39,8 @@ def run_cell(args):
     t0 = time.time()
     eng = core.Engine(max_decisions=getattr(mod, "MAX_DECISIONS", 20000),
                       path_seconds=getattr(mod, "PATH_SECONDS", 20),
-                      solver_timeout_ms=getattr(mod, "SOLVER_TIMEOUT_MS", 20000))
+                      solver_timeout_ms=getattr(mod, "SOLVER_TIMEOUT_MS", 20000),
+                      max_folded=getattr(mod, "MAX_FOLDED", None))
     otime = getattr(mod, "ORACLE_TIMEOUT", 10)
     res = {"cell": cell, "stats": None, "classes": set(), "violations": [], "engine": [],
            "samples": [], "validated": 0, "unsupported": [], "spurious": [], "unknowns": 0,
@@ -53,8 +54,13 @@ def run_cell(args):
         return mod.run(ctx, cell)
 
     validate = getattr(mod, "CROSS_VALIDATE", True)
+    ndiv = 0
+    stop_cell = False
     try:
         for rec in eng.explore(fn, max_paths=getattr(mod, "MAX_PATHS", 200000)):
+            if stop_cell:
+                res["exhaustive"] = False
+                break
             ctx = holder[0]
             st = rec["status"]
             if st == "abort":
@@ -82,8 +88,10 @@ def run_cell(args):
                     _cand(res, seen_labels, lab, det, inputs, r, confirmed=True)
                 continue
             if st == "diverged":
+                ndiv += 1
                 r = orc.call(hname, cell, inputs, otime)
                 if r["status"] == "timeout":
+                    stop_cell = ndiv >= 2      # confirmed non-termination: do not burn the cell
                     _cand(res, seen_labels, getattr(mod, "DIVERGE_LABEL", "non-termination"),
                           str(rec["exc"]), inputs, r, confirmed=True)
                 else:
@@ -202,6 +210,9 @@ def main(argv=None):
         with ctx.Pool(a.jobs, initializer=_winit, initargs=(hname,)) as pool:
             for r in pool.imap_unordered(run_cell, [(c, opts) for c in cells], chunksize=1):
                 results.append(r)
+                if a.verbose:
+                    print("  cell %s paths=%d wall=%.1fs" % (json.dumps(r["cell"]),
+                          r["stats"]["paths"] if r["stats"] else -1, r["wall"]), file=sys.stderr)
     return report(pid, mod, a, seed, cells, results, time.time() - t0)
 
 
